@@ -1,6 +1,7 @@
 package main
 
 import (
+	"github.com/olive-io/bpmn/v2/pkg/timer"
 	"math/rand"
 	"bytes"
 	"context"
@@ -28,6 +29,9 @@ type c07Prog struct {
 	auto  []string // tasks answered automatically as soon as requested
 	event string   // a signal delivered once, right after start (may be "")
 }
+
+// realTimers: the instance is built with the timer event definitions of pkg/timer on the host clock
+func (p c07Prog) realTimers() bool { return strings.Contains(p.name, "host clock") }
 
 func c07Corpus() []c07Prog {
 	var out []c07Prog
@@ -168,6 +172,7 @@ func c07Corpus() []c07Prog {
 		p.Flow("T", "A", "")
 		p.Flow("A", "end", "")
 		mk("timer catch event waiting", p, "", nil, nil, "")
+		out = append(out, c07Prog{"timer catch event waiting for a real timer (host clock, due in an hour)", p.XML(""), nil, nil, ""})
 	}
 	return out
 }
@@ -223,6 +228,12 @@ func c07Run(pr c07Prog, k int, label string) (o c07Obs) {
 			opts := []bpmn.Option{bpmn.WithContext(ctx), bpmn.WithIdGenerator(sharedGen)}
 			if pr.vars != nil {
 				opts = append(opts, bpmn.WithVariables(pr.vars))
+			}
+			if pr.realTimers() {
+				fan := event.NewFanOut()
+				tr := tracing.NewTracer(ctx)
+				b := event.DefinitionInstanceBuildingChain(timer.EventDefinitionInstanceBuilder(ctx, fan, tr))
+				opts = append(opts, bpmn.WithTracer(tr), bpmn.WithProcessEventDefinitionInstanceBuilder(b), bpmn.WithEventEgress(fan), bpmn.WithEventIngress(fan))
 			}
 			p, err := bpmn.NewProcess(procElem, defs, opts...)
 			must(err)
